@@ -1017,6 +1017,43 @@ func c19Exhaustive(emit func(c19Scn, string)) {
 	}
 }
 
+// c19RandReq: the shape of a delete's admission request as the API server builds it.
+func c19RandReq(r *Rng) *c19Req {
+	rq := &c19Req{}
+	if r.Chance(1, 2) {
+		rq.Coll = true // deletecollection / DeleteAllOf: request.name is empty
+	}
+	if r.Chance(1, 4) {
+		rq.NS = Pick(r, []string{"default", "crossplane-system"})
+	}
+	if r.Chance(1, 3) {
+		rq.RKV = Pick(r, []string{"v1", "v1beta1", "v2", "v1alpha1"})
+	}
+	if r.Chance(1, 8) {
+		rq.Dry = true
+	}
+	if r.Chance(1, 8) {
+		rq.Sub = Pick(r, []string{"status", "scale"})
+	}
+	if r.Chance(1, 12) {
+		rq.Op = Pick(r, []string{"UPDATE", "CREATE", "CONNECT"})
+	}
+	if r.Chance(1, 3) {
+		rq.Grace = Pick(r, []int{1, 2, 31})
+	}
+	rq.Pre = r.Chance(1, 4)
+	return rq
+}
+
+// c19VaryRequests gives two delete requests in five a request shape of their own.
+func c19VaryRequests(r *Rng, s *c19Scn) {
+	for i := range s.Steps {
+		if s.Steps[i].Op == "dr" && s.Steps[i].Rq == nil && r.Chance(2, 5) {
+			s.Steps[i].Rq = c19RandReq(r)
+		}
+	}
+}
+
 func c19Class(scn c19Scn, obs c19Obs, fam string) string {
 	f := map[string]bool{}
 	ofs := map[string]int{}
@@ -1068,6 +1105,18 @@ func c19Class(scn c19Scn, obs c19Obs, fam string) string {
 			}
 			if s.V > 0 {
 				f["hlag"] = true // the webhook's List lags behind
+			}
+			if s.Rq != nil {
+				f["rq"] = true // the admission request has a shape of its own
+				if s.Rq.Coll {
+					f["coll"] = true // collection delete: request.name empty
+				}
+				if s.Rq.Dry {
+					f["dry"] = true
+				}
+				if s.Rq.Op != "" {
+					f["rop"] = true
+				}
 			}
 		case "step":
 			if s.O != "ok" {
@@ -1192,6 +1241,7 @@ func init() {
 			default:
 				s, fam = c19GenClasses(r), "cls"
 			}
+			c19VaryRequests(r, &s)
 			obs, mons := c19Run(s)
 			c.Emit(s, obs, mons, c19Class(s, obs, fam))
 		}
